@@ -337,7 +337,16 @@ def check(ctx):
     }
     ctx.notes.append("lockstep comparison with the Impl layer is not possible through yamux (real chunking / window updates differ from "
                      "the abstract units); TLC behaviours drive the poll order only, so no drift count is reported")
-    return conclude(ctx, "model_checking", cov, violations, ASSUME)
+    # last clause of the statement at system level ("reported complete => the peer receives it without further action
+    # by the sender"): responses written after the responder's keep-alive downgrade on real two-node networks
+    import reqresp_util
+    lv, lcov = reqresp_util.late_response_part(ctx)
+    violations += lv
+    cov["late_response_networks"] = lcov
+    return conclude(ctx, "model_checking", cov, violations, ASSUME + [
+        "system-level part of 'reported complete => delivered': real two-node networks (tcp, ws, quic), the responder answers 0.5/1.5/3.5 "
+        "keep-alive periods after the request with 32 B / 64 KiB / 1 MiB responses; a response whose send was reported complete on a "
+        "link without injected fault, with the requester still waiting, must arrive byte-identically (monitor rule of ReqResp, c04 mode)"])
 
 
 def selftest(ctx):
